@@ -48,94 +48,103 @@ func verifC04Nodes(mr metadata.Reader, rec *verifc04.Rec) error {
 	budget := 30000
 	onPath := map[uint32]bool{}
 	var lastErr error
-	var visit func(n *node, p string)
-	visit = func(n *node, p string) {
-		if budget <= 0 {
-			return
-		}
-		budget--
-		if onPath[n.id] {
-			rec.Fail("cyclic-tree:node", fmt.Sprintf("directory node %d is its own descendant at %q", n.id, p))
-			return
-		}
+	// scratch structures live on the heap and the walk uses an explicit stack: the harness itself
+	// must not be the one that overflows on a deep tree
+	ao, eo, so := new(fuse.AttrOut), new(fuse.EntryOut), new(fuse.StatfsOut)
+	type frame struct {
+		n     *node
+		p     string
+		names []string
+		i     int
+	}
+	enter := func(n *node, p string) *frame {
 		onPath[n.id] = true
-		defer delete(onPath, n.id)
-		var ao fuse.AttrOut
-		n.Getattr(ctx, nil, &ao)
+		fr := &frame{n: n, p: p}
+		n.Getattr(ctx, nil, ao)
 		n.Listxattr(ctx, make([]byte, 1))
 		n.Listxattr(ctx, make([]byte, 4096))
 		n.Getxattr(ctx, "trusted.overlay.opaque", make([]byte, 1))
 		n.Getxattr(ctx, "user.k", make([]byte, 0))
-		var so fuse.StatfsOut
-		n.Statfs(ctx, &so)
+		n.Statfs(ctx, so)
 		ds, errno := n.Readdir(ctx)
 		if errno != 0 {
 			lastErr = errno
-			return
+			return fr
 		}
-		var names []string
 		for ds.HasNext() {
 			e, errno := ds.Next()
 			if errno != 0 {
 				break
 			}
-			names = append(names, e.Name)
+			if e.Name != "." && e.Name != ".." {
+				fr.names = append(fr.names, e.Name)
+			}
 		}
-		sort.Strings(names)
-		names = append(names, "no-such-entry", ".wh.x", "", estargzLandmarkProbe)
-		for _, name := range names {
-			if name == "." || name == ".." {
-				continue
-			}
-			var eo fuse.EntryOut
-			in, errno := n.Lookup(ctx, name, &eo)
-			if errno != 0 || in == nil {
-				continue
-			}
-			switch c := in.Operations().(type) {
-			case *node:
-				mode := c.attr.Mode
-				switch {
-				case mode.IsDir():
-					cp := p
-					if len(p) < 2048 {
-						cp = p + "/" + name
-					}
-					visit(c, cp)
-				case mode.IsRegular():
-					fh, _, errno := c.Open(ctx, 0)
-					if errno != 0 {
-						lastErr = errno
-						continue
-					}
-					f := fh.(*file)
-					for _, lo := range [][2]int64{{4096, 0}, {131072, 0}, {1, 0}, {16, 3}, {4096, 4096}} {
-						if _, errno := f.Read(ctx, make([]byte, lo[0]), lo[1]); errno != 0 {
-							lastErr = errno
-						}
-					}
-					f.Getattr(ctx, &ao)
-					f.Release(ctx)
-				case mode&os.ModeSymlink != 0:
-					c.Readlink(ctx)
+		sort.Strings(fr.names)
+		fr.names = append(fr.names, "no-such-entry", ".wh.x", verifC04LandmarkProbe)
+		return fr
+	}
+	stack := []*frame{enter(root, "")}
+	for len(stack) > 0 {
+		fr := stack[len(stack)-1]
+		if fr.i >= len(fr.names) || budget <= 0 {
+			delete(onPath, fr.n.id)
+			stack = stack[:len(stack)-1]
+			continue
+		}
+		name := fr.names[fr.i]
+		fr.i++
+		budget--
+		in, errno := fr.n.Lookup(ctx, name, eo)
+		if errno != 0 || in == nil {
+			continue
+		}
+		switch c := in.Operations().(type) {
+		case *node:
+			mode := c.attr.Mode
+			c.Getattr(ctx, nil, ao)
+			c.Listxattr(ctx, make([]byte, 4096))
+			switch {
+			case mode.IsDir():
+				cp := fr.p
+				if len(fr.p) < 2048 {
+					cp = fr.p + "/" + name
 				}
-				c.Getattr(ctx, nil, &ao)
-				c.Listxattr(ctx, make([]byte, 4096))
-			case *whiteout:
-				c.Getattr(ctx, nil, &ao)
-			case *state:
-				c.Readdir(ctx)
+				if onPath[c.id] {
+					rec.Fail("cyclic-tree:node", fmt.Sprintf("directory node %d is its own descendant at %q", c.id, cp))
+					continue
+				}
+				stack = append(stack, enter(c, cp))
+			case mode.IsRegular():
+				fh, _, errno := c.Open(ctx, 0)
+				if errno != 0 {
+					lastErr = errno
+					continue
+				}
+				f := fh.(*file)
+				for _, lo := range [][2]int64{{4096, 0}, {131072, 0}, {1, 0}, {16, 3}, {4096, 4096}} {
+					if _, errno := f.Read(ctx, make([]byte, lo[0]), lo[1]); errno != 0 {
+						lastErr = errno
+					}
+				}
+				f.Getattr(ctx, ao)
+				f.Release(ctx)
+			case mode&os.ModeSymlink != 0:
+				c.Readlink(ctx)
 			}
+		case *whiteout:
+			c.Getattr(ctx, nil, ao)
+		case *state:
+			c.Readdir(ctx)
 		}
 	}
-	visit(root, "")
 	if lastErr == syscall.Errno(0) {
 		lastErr = nil
 	}
 	return lastErr
 }
 
-const estargzLandmarkProbe = ".prefetch.landmark"
+const verifC04LandmarkProbe = ".prefetch.landmark"
 
 var verifC04Bases []*verifc04.Base
 
@@ -183,37 +192,7 @@ func TestVerifC04(t *testing.T) {
 		t.Fatalf("cannot build the valid base blobs: %v", err)
 	}
 	g := &verifc04.Gen{R: rnd, Bases: bases}
-	n := verifutil.EnvInt("VERIF_N", 600)
-	inputs := g.Fixed()
-	inputs = append(inputs, verifc04.Suspects(g)...)
-	for i := 0; i < n; i++ {
-		inputs = append(inputs, g.Structured())
-	}
-	for i := 0; i < n/3; i++ {
-		inputs = append(inputs, g.Footer())
-	}
-	for i := 0; i < n/4; i++ {
-		inputs = append(inputs, g.Raw())
-	}
-	for i := 0; i < n/2; i++ {
-		inputs = append(inputs, g.FooterBytes())
-	}
-	stride := 1
-	if os.Getenv("VERIF_TIER") != "thorough" {
-		stride = 3
-	}
-	inputs = append(inputs, g.Truncations(bases[0], stride)...)
-	inputs = append(inputs, g.Truncations(bases[1], stride*3)...)
-	inputs = append(inputs, g.Truncations(bases[2], stride*3)...)
-	for i := 0; i < n/8; i++ {
-		inputs = append(inputs, g.BitFlip())
-	}
-	for i := 0; i < n/8; i++ {
-		inputs = append(inputs, g.Tar())
-	}
-	for i := 0; i < n; i++ {
-		inputs = append(inputs, g.ArithOp())
-	}
+	inputs := verifc04.Plan(g, false)
 	out.Comment(fmt.Sprintf("C04 layer binary: %d inputs", len(inputs)))
 	sum := verifc04.Run(out, inputs, verifc04.DefaultConfig())
 	out.Comment(fmt.Sprintf("inputs=%d crashes=%d hangs=%d", sum.Inputs, sum.Crashes, sum.Hangs))
